@@ -372,4 +372,9 @@ def check(ctx):
     check_delegation(ctx, "C19-a")
     check_builder(ctx, "C19-b")
     check_sutton(ctx, "C19-c")
+    # the facade maps scalar correlations over arrays with np.vectorize: the output type is inferred from the first
+    # element, or cast to a stated one - either way it has to be double for the facade to reproduce the correlation
+    from .dtypes import check_vectorize
+
+    check_vectorize(ctx, "C19-e", ["bluebonnet.fluids.fluid"])
     ctx.floor("C19", len(ctx.obligs), 25, "facade / builder obligations")
